@@ -19,7 +19,8 @@ RULE = ("generated generator bodies (actions spanning yields, logging, try/excep
         "script over next / send(v) / throw(E) / close (also before start and after exhaustion), each step run under one of several "
         "surrounding driver actions (which may be finished between steps while generators started in them are suspended), under no action, or on a fresh thread. Generators are created inside one driver action and first resumed inside another; half of them end with a yield "
         "written directly in the generator function (no `yield from` in between) whose handler may answer a thrown GeneratorExit with a return "
-        "value or another yield. Probes: inside the body after every resumption "
+        "value or another yield. What gets decorated is the generator function, a functools.wraps pass-through, an object with a generator __call__ or a lambda. A third of the "
+        "cases run with warnings as errors. Probes: inside the body after every resumption "
         "current_action() IS the top of the generator's own shadow stack (action current at first resumption + actions entered "
         "since); in the driver after every step it IS what it was before. Differential: the same script on the UNDECORATED generator "
         "must give the same trace of yielded values, received values, thrown-in and raised exception objects, close() behaviour and "
